@@ -6,7 +6,9 @@ import (
 	"os"
 	"path/filepath"
 
+	"github.com/RoaringBitmap/roaring/v2"
 	rt "github.com/blevesearch/bleve/v2/internal/verifrt"
+	segment "github.com/blevesearch/scorch_segment_api/v2"
 )
 
 func verifFileExists(path string) bool {
@@ -115,4 +117,128 @@ func VerifH_C12_Purge() {
 	_ = s.rootBolt.Close()
 	rt.Cover(rt.And(k == 3, len(meta) == 1), "two-snapshots-purged")
 	rt.Cover(rt.And(k >= 2, len(meta) == k, len(eligible) >= 1), "eligible-but-protected")
+}
+
+// verifMixedRoot: a root whose segments are symbolically persisted (named NNNN.zap under /idx) or in memory.
+func verifMixedRoot(s *Scorch, nsegs int) *IndexSnapshot {
+	root := &IndexSnapshot{parent: s, refs: 1, internal: map[string][]byte{}, creator: "verif"}
+	var running uint64
+	for i := 0; i < nsegs; i++ {
+		id := uint64(i + 1)
+		ss := &SegmentSnapshot{id: id, stats: newFieldStats(), cachedDocs: &cachedDocs{cache: nil}, cachedMeta: newCachedMeta(), creator: "verif"}
+		ids := []byte{'a' + byte(i)}
+		if rt.Choice("persisted", 2) == 1 {
+			ss.segment = &verifPSeg{verifSeg{n: 1, idOf: ids, refs: 1, path: filepath.Join("/idx", zapFileName(id))}}
+		} else {
+			ss.segment = &verifUSeg{verifSeg{n: 1, idOf: ids, refs: 1}}
+		}
+		root.segment = append(root.segment, ss)
+		root.offsets = append(root.offsets, running)
+		running++
+	}
+	s.root = root
+	return root
+}
+
+func verifFileNameOf(ss *SegmentSnapshot) string {
+	if st := verifStub(ss.segment); st != nil && st.path != "" {
+		return filepath.Base(st.path)
+	}
+	return zapFileName(ss.id)
+}
+
+// VerifH_C12_CopyScheduled: the online-copy bookkeeping. While a copy reader is open, every file of its
+// snapshot - for an in-memory segment the name it will get when persisted - is scheduled (count > 0),
+// which is what stops the purge (VerifH_C12_Purge) from removing it; two overlapping copy readers
+// compose (closing one keeps the other's files scheduled); after the last close the table is as before.
+func VerifH_C12_CopyScheduled() {
+	s := verifNewScorch()
+	nsegs := rt.Choice("nsegs", rt.Param("max_segs", 2)) + 1
+	root := verifMixedRoot(s, nsegs)
+	var names []string
+	for _, ss := range root.segment {
+		names = append(names, verifFileNameOf(ss))
+	}
+	pre := rt.Choice("already_scheduled", 2) // another copy of the first file is already pending
+	if pre == 1 {
+		s.copyScheduled[names[0]] = 1
+	}
+	r1 := s.CopyReader()
+	rt.Assert(r1 != nil, "copy reader 1")
+	for _, n := range names {
+		rt.Assert(s.copyScheduled[n] > 0, "every file of the snapshot being copied is scheduled")
+	}
+	r2 := s.CopyReader()
+	rt.Assert(r2 != nil, "copy reader 2")
+	first, second := r1, r2
+	if rt.Choice("close_order", 2) == 1 {
+		first, second = r2, r1
+	}
+	rt.Assert(first.CloseCopyReader() == nil, "close first copy reader")
+	for _, n := range names {
+		rt.Assert(s.copyScheduled[n] > 0, "files stay scheduled while another copy reader is open")
+	}
+	rt.Assert(second.CloseCopyReader() == nil, "close second copy reader")
+	for i, n := range names {
+		want := 0
+		if i == 0 && pre == 1 {
+			want = 1
+		}
+		rt.Assert(s.copyScheduled[n] == want, "after the last close the schedule is what it was before")
+	}
+	if pre == 0 {
+		rt.Assert(len(s.copyScheduled) == 0, "no entry is left behind")
+	}
+	rt.Assert(root.refs == 1, "snapshot references are balanced")
+	rt.Cover(nsegs == 2, "two-files")
+}
+
+// VerifH_C12_DroppedFiles: when a batch obsoletes every document of a persisted segment, the segment
+// leaves the root and its file, if it was still marked ineligible for removal (a merge output not yet
+// recorded in the metadata store), becomes removable: otherwise the file would stay forever.
+// Files of segments that stay in the root keep their mark.
+func VerifH_C12_DroppedFiles() {
+	s := verifNewScorch()
+	nsegs := rt.Choice("nsegs", rt.Param("max_segs", 2)) + 1
+	root := verifMixedRoot(s, nsegs)
+	marked := map[string]bool{}
+	for _, ss := range root.segment {
+		if rt.Choice("marked", 2) == 1 {
+			n := verifFileNameOf(ss)
+			s.ineligibleForRemoval[n] = true
+			marked[n] = true
+		}
+	}
+	// a batch deleting a symbolic subset of the ids (segment i holds the single id 'a'+i)
+	var ids []string
+	for i := 0; i < nsegs; i++ {
+		if rt.Choice("delete", 2) == 1 {
+			ids = append(ids, string([]byte{'a' + byte(i)}))
+		}
+	}
+	next := &segmentIntroduction{id: 50, ids: ids, applied: make(chan error, 1), obsoletes: map[uint64]*roaring.Bitmap{}}
+	for _, ss := range root.segment {
+		d, _ := ss.segment.DocNumbers(ids)
+		next.obsoletes[ss.id] = d
+	}
+	root.AddRef()
+	rt.Assert(s.introduceSegment(next) == nil, "introduceSegment")
+	inNew := map[uint64]bool{}
+	for _, ss := range s.root.segment {
+		inNew[ss.id] = true
+	}
+	dropped := 0
+	for _, ss := range root.segment {
+		n := verifFileNameOf(ss)
+		_, isP := ss.segment.(segment.PersistedSegment)
+		if !inNew[ss.id] {
+			dropped++
+			if isP {
+				rt.Assert(!s.ineligibleForRemoval[n], "the file of a persisted segment that left the root is no longer protected from removal")
+			}
+		} else {
+			rt.Assert(s.ineligibleForRemoval[n] == marked[n], "files of segments that stay keep their mark")
+		}
+	}
+	rt.Cover(dropped >= 1, "a-segment-dropped")
 }
